@@ -216,7 +216,15 @@ struct DaemonScenario : Scenario {
     MsgState *orig = nullptr; std::vector<MsgState *> cands;
     for (auto &kv : ledger) if (!kv.second.gone) cands.push_back(&kv.second);
     // the original is the (unique) message all of whose recipients are finished and that has D-final recipients not yet named in an earlier bounce
-    for (auto *m : cands) { bool anyD = false, alldone = true; for (auto &r : m->rc) { if (r.final_report == 'D') anyD = true; if (!r.final_report && !r.marked) alldone = false; } if (anyD && alldone && !m->bounced) { if (b.body.find("<" + m->rc[0].addr + ">:") != std::string::npos || true) { bool named = false; for (auto &r : m->rc) if (r.final_report == 'D' && b.body.find("<" + r.addr + ">:\n") != std::string::npos) named = true; if (named) { orig = m; break; } } } }
+    // pass 0: messages not yet bounced; pass 1 (only after a failed call or a crash, when the daemon legitimately sends a notice again: at-least-once,
+    // like deliveries after a crash): messages already bounced, if the envelope fits them
+    for (int pass = 0; pass < 2 && !orig; pass++) {
+      if (pass == 1 && !(faults_seen > 0 || machine_crashed || daemon_killed)) break;
+      for (auto *m : cands) { bool anyD = false, alldone = true; for (auto &r : m->rc) { if (r.final_report == 'D') anyD = true; if (!r.final_report && !r.marked) alldone = false; }
+        if (!(anyD && alldone) || (pass == 0) == m->bounced) continue;
+        if (pass == 1 && b.sender != (m->sender.empty() ? "#@[]" : "")) continue;
+        bool named = false; for (auto &r : m->rc) if (r.final_report == 'D' && b.body.find("<" + r.addr + ">:\n") != std::string::npos) named = true;
+        if (named) { orig = m; break; } } }
     if (!orig) { if (!machine_crashed && !daemon_killed) w.violation("C14:bounce-without-failed-recipient", "a bounce notice was queued that names no permanently failed recipient of any message in the queue: envelope sender [" + b.sender + "] to [" + (b.rc.empty() ? "" : b.rc[0].addr) + "]"); return; }
     orig->bounced = true;
     bool isdouble = orig->sender.empty();
